@@ -31,3 +31,20 @@ Lemma c06_keys_unique :
     (map key_of registered) = true.
 Proof. vm_compute. reflexivity. Qed.
 Goal True. idtac "@@OBL c06_keys_unique". Abort.
+
+(* The issuers of X.509 client certificates (Model/AuthGateRole.v: mint_user for /certgen/ and the AWS role
+   template, mint_role for the two role endpoints) against the REGENERATED table of signing sites of
+   cmd/keymasterd: there are exactly three X.509 issuing sites, and exactly one of them - the one the role
+   endpoints share - builds certificates with the address-delegation extension (GenIPRestrictedX509Cert).
+   A new issuing site (a second path that could put the extension under another CA) fails here until the
+   issuer model covers it.  No function name is looked at. *)
+From KMW Require gen.Tables.
+Definition x509_issue_sites : list (string * string * string * string) :=
+  filter (fun s => let '(_, g, k, _) := s in String.eqb k "issue" && negb (String.eqb g "GenSSHCertFileString"))
+         KMW.gen.Tables.signing_sites.
+Lemma c06_x509_issuing_sites :
+  length x509_issue_sites = 3 /\
+  length (filter (fun s => let '(_, g, _, _) := s in String.eqb g "GenIPRestrictedX509Cert") x509_issue_sites) = 1 /\
+  length (filter (fun s => let '(_, g, _, _) := s in String.eqb g "GenIPRestrictedX509Cert") KMW.gen.Tables.signing_sites) = 1.
+Proof. vm_compute. repeat split; reflexivity. Qed.
+Goal True. idtac "@@OBL c06_x509_issuing_sites". Abort.
